@@ -238,7 +238,8 @@ def gen(rng, tier, index=0):
             tamper = {'delete': True}
         if cfg2['modulo'] == 2.5 and any(
                 isinstance(x, int) and abs(x) > 2 ** 40
-                for x in [o['data'].get(k_) for o in ops for k_ in ('amount', 'value')]
+                for x in [o['data'].get(k_) for o in ops + cfg['init_events']
+                          for k_ in ('amount', 'value')]
                 + [cfg['initdef'], (plan['stored'] or {}).get('value')]):
             cfg2['modulo'] = cfg['modulo']      # keep huge integers away from the float modulo
         plan['restart'] = {
@@ -602,8 +603,34 @@ def restart_run(prev, knobs, wall_start_us):
     return new, res['steps'], res['sim_seconds']
 
 
+def _plan_numbers(plan):
+    rs = plan.get('restart') or {}
+    cfgs = [plan.get('cfg') or {}, rs.get('cfg') or {}]
+    for cfg in cfgs:
+        yield cfg.get('initdef')
+    for op in ((plan.get('ops') or []) + (rs.get('ops') or [])
+               + [ie for cfg in cfgs for ie in cfg.get('init_events') or []]):
+        if isinstance(op, dict) and isinstance(op.get('data'), dict):
+            yield from op['data'].values()
+    yield (plan.get('stored') or {}).get('value')
+    yield (rs.get('tamper') or {}).get('value')
+
+
+def _check_exactness(plan):
+    """The stated assumption (exact arithmetic); shrunk plans must stay inside it."""
+    mods = [c.get('modulo') for c in (plan.get('cfg'), (plan.get('restart') or {}).get('cfg'))
+            if isinstance(c, dict)]
+    nums = [x for x in _plan_numbers(plan) if _is_number(x)]
+    for x in nums + [m for m in mods if m is not None]:
+        if isinstance(x, float) and (x * 2 != int(x * 2) or abs(x) > 2 ** 40):
+            raise PlanError('floats must be multiples of 0.5 below 2**40')
+    if any(isinstance(x, float) for x in nums + mods) and any(abs(x) > 2 ** 40 for x in nums):
+        raise PlanError('huge integers are not combined with floats')
+
+
 def execute(plan, trace=False):
     info = {'arith': 0}
+    _check_exactness(plan)
     run = Run(plan['knobs'])
     steps = 0
     sim_s = 0.0
